@@ -99,14 +99,17 @@ CLAIMED.update({
     "C06": sim("Theorem: for every schedule in which the periodic check fires within the regenerated interval, the acquisition round waits at most the regenerated "
                "maximum jitter and each store call takes at most L, a vacancy is filled within 500 ms + 100 ms + 4L. The monitor measures the bound on every "
                "vacancy of every simulated trace (deletion, expiry after crash/partition, removal; lost/closed/failed watches; transient failures).", "5.6 and 11", TECH),
-    "C07": sim("Theorems: a store call answered within half a heartbeat interval (2 lat + 1 < H) never reaches the time-out of the validation read or of the refresh, for "
-               "every H (time-outs regenerated from the source: max(2 s, H/2) after repair 07d1c30, max(1 s, H/2)); the lease lemma and the C02 theorem (the record never "
-               "lapses or changes owner under a claiming leader in the fast-store environment); in that environment the heartbeat-failure path never gives up a claim, for "
-               "every admitted trace (Proofs/SimStable.v; rule 2080); in the lease environment (no timing assumption at all) the watcher path never gives up a claim, whatever "
-               "the delay, duplication or order of the notifications (Proofs/SimWatch.v; rule 2082: that path acts only on a readable foreign version newer than the write the "
-               "term rests on, and while an instance holds a claim every newer readable version of its record is its own); in the quiet environment (no connection notification, healthy checks) the grace-period, reconnect-verification and health paths and the acquisition "
-               "rounds never give up a claim (Proofs/SimCauses.v; rules 2083-2085); the regenerated takeover comparison yields on equal priority. Stability against the remaining cause "
-               "(the validation of the fencing token; no demotion until stop) is decided by the monitor on every fault-free trace, including intervals above 4 s and answers between the fixed time-outs and H/2.", "5.7, 11 and 12", TECH, category="other"),
+    "C07": sim("Theorem (Coq, Props/C07.v C07_partial_only_a_stop_ends_a_term, by induction over every trace admitted by the protocol model, any number of "
+               "instances and steps): in the property's environment - a store that answers within half a heartbeat interval without transport faults, nobody "
+               "else writing the bucket, no takeover or health checker configured, no expiry or Delete under a holder, no connection notification, no unhealthy "
+               "result - no observation shows a claim given up by the refresh-failure path (SimStable), the watcher (SimWatch: whatever the delay, duplication or "
+               "order of the notifications), the connection and health paths or an acquisition round (SimCauses), or the instance's own validation loop "
+               "(SimValid): only a stop call, the cancellation of the context passed to Start or the fencing check the application asks for can end a term; and "
+               "the record never lapses or changes owner under the claiming leader (C02's theorem). Store calls answered within H/2 never reach the time-outs "
+               "(regenerated: max(2 s, H/2) after repair 07d1c30, max(1 s, H/2)). PARTIAL: the local rules 2080-2086, 2090 (what each demotion path acts on) are "
+               "validated on every real trace, not derived from the source; 'no Delete under a holder' is the recorded finding D5; token constancy and callbacks are "
+               "C05 / C08. The monitor decides the property on every fault-free trace as well, including intervals above 4 s and answers between the fixed "
+               "time-outs and H/2.", "5.7, 11 and 12", TECH),
     "C08": sim("Theorem (Coq, counting invariant over all admitted traces): the local callback rules (one promotion per term; a demotion only when one is owed and after the "
                "term's promotion has been entered; the claim raised only when no callback is owed) imply that promotion and demotion callbacks strictly alternate, starting "
                "with a promotion. Rules 2042/2046 of earlier versions (promotion entered while the term is alive) were too strong - a stop landing at the instant of the "
